@@ -320,6 +320,23 @@ macro_rules! mid {
     (single, $s:expr) => { &mut $s[0] };
 }
 
+/// The guard a chaining method returns must be of the documented type (current colour type, ORIGINAL colour
+/// type): the state enum below holds exactly those types. `fit` lets the harness type-check whatever the
+/// method returns and turns a different guard type into an oracle panic (reported as a violation of the step),
+/// instead of a harness build failure under a change of the public return type.
+fn fit<X, E>(x: X, method: &str) -> E {
+    let (got, want) = (core::any::type_name::<X>(), core::any::type_name::<E>());
+    if got != want || core::mem::size_of::<X>() != core::mem::size_of::<E>() {
+        // the guard is dropped here (restoring whatever it restores); the explorer sees the panic
+        drop(x);
+        panic!("C13-ORACLE: {method} returned a guard of type {got}, documented {want}");
+    }
+    // same type: a plain move, spelled through transmute_copy because X and E are distinct type variables
+    let e = unsafe { core::mem::transmute_copy::<X, E>(&x) };
+    core::mem::forget(x);
+    e
+}
+
 macro_rules! then_impl {
     ($kind:ident, $u:ty, $t:ty, [$(($ctag:ident, $c:ty)),*]) => {
         impl<'a> Then<'a> for FromColorMutGuard<'a, w!($kind, $t), w!($kind, $u)> {
@@ -330,9 +347,9 @@ macro_rules! then_impl {
                     k += 1;
                     if c == k {
                         return if uncl {
-                            G::U(GU::$ctag(self.then_into_color_unclamped_mut::<w!($kind, $c)>()))
+                            G::U(GU::$ctag(fit(self.then_into_color_unclamped_mut::<w!($kind, $c)>(), "then_into_color_unclamped_mut")))
                         } else {
-                            G::C(GC::$ctag(self.then_into_color_mut::<w!($kind, $c)>()))
+                            G::C(GC::$ctag(fit(self.then_into_color_mut::<w!($kind, $c)>(), "then_into_color_mut")))
                         };
                     }
                 )*
@@ -348,9 +365,9 @@ macro_rules! then_impl {
                     k += 1;
                     if c == k {
                         return if uncl {
-                            G::U(GU::$ctag(self.then_into_color_unclamped_mut::<w!($kind, $c)>()))
+                            G::U(GU::$ctag(fit(self.then_into_color_unclamped_mut::<w!($kind, $c)>(), "then_into_color_unclamped_mut")))
                         } else {
-                            G::C(GC::$ctag(self.then_into_color_mut::<w!($kind, $c)>()))
+                            G::C(GC::$ctag(fit(self.then_into_color_mut::<w!($kind, $c)>(), "then_into_color_mut")))
                         };
                     }
                 )*
@@ -428,8 +445,8 @@ macro_rules! family {
             }
             fn switch<'a>(g: G<'a>) -> G<'a> {
                 match g {
-                    $( G::C(GC::$tag(x)) => G::U(GU::$tag(x.into_unclamped_guard())), )*
-                    $( G::U(GU::$tag(x)) => G::C(GC::$tag(x.into_clamped_guard())), )*
+                    $( G::C(GC::$tag(x)) => G::U(GU::$tag(fit(x.into_unclamped_guard(), "into_unclamped_guard"))), )*
+                    $( G::U(GU::$tag(x)) => G::C(GC::$tag(fit(x.into_clamped_guard(), "into_clamped_guard"))), )*
                 }
             }
             fn restore<'a>(g: G<'a>) -> &'a mut Cont {
